@@ -444,10 +444,10 @@ var loxWhole = []struct{ kind, text string }{
 	{"macro-cycle-unused", "@lexer\n@macro M = N\n@macro N = M\nA = 'a'\n@parser\n@start s = A\n"},
 	{"macro-undefined", "@lexer\nA = NOPE\n@parser\n@start s = A\n"},
 	{"macro-is-token", "@lexer\nA = 'a'\nB = A\n@parser\n@start s = A\n"},
-	{"macro-doubling-12", macroBomb(12)},
+	{"macro-doubling-10", macroBomb(10)},
 	{"nested-parens-2000", "@lexer\nA = " + strings.Repeat("(", 2000) + "'a'" + strings.Repeat(")", 2000) + "\n@parser\n@start s = A\n"},
 	{"alternatives-3000", "@lexer\nA = " + strings.Repeat("'a' | ", 3000) + "'b'\n@parser\n@start s = A\n"},
-	{"long-literal", "@lexer\nA = '" + strings.Repeat("ab", 4000) + "'\n@parser\n@start s = A\n"},
+	{"long-literal", "@lexer\nA = '" + strings.Repeat("ab", 1000) + "'\n@parser\n@start s = A\n"},
 	{"many-tokens", manyTokens(400)},
 	{"long-production", "@lexer\nA = 'a'\n@parser\n@start s = " + strings.Repeat("A ", 3000) + "\n"},
 	{"many-productions", "@lexer\nA = 'a'\nB = 'b'\n@parser\n@start s = " + strings.Repeat("A B | ", 600) + "A\n"},
@@ -850,8 +850,20 @@ func genCLICases(c *Ctx, n int, stale map[string]string) []*cliCase {
 	}
 	whole, variant := 0, 0
 	// the fixed part of every run: every adversarial file and every Go package variant once
-	for _, w := range loxWhole {
-		cases = append(cases, base("whole:"+w.kind, w.text, permissiveGo))
+	// Everything grammar-related (parse, analysis, NFA/DFA, LALR) happens before lox looks at the Go package, so a
+	// directory without Go sources still drives the whole front end and stops at `package contains no Go sources`
+	// without the (expensive) go list. Quick tier: the files that matter for the emitters always get a Go package, of
+	// the others a third, rotating with the seed; thorough tier: all of them.
+	emitRelevant := map[string]bool{"lexer-only-valid": true, "nul-bytes": true, "invalid-utf8": true, "invalid-utf8-class": true, "bom": true, "crlf": true,
+		"line-extension": true, "empty-mode": true, "mode-never-entered": true, "push-default": true, "max-rune": true, "everything": true,
+		"class-dashes": true, "class-escaped-dash": true, "many-tokens": true, "long-literal": true, "external-only": true, "prec-mixed": true,
+		"sections-repeated": true, "parser-before-lexer": true, "list-rule-elems": true, "all-cards-same-term": true, "error-cards": true}
+	for i, w := range loxWhole {
+		gosrc := permissiveGo
+		if c.Tier != "thorough" && !emitRelevant[w.kind] && uint64(i)%3 != c.Seed%3 {
+			gosrc = ""
+		}
+		cases = append(cases, base("whole:"+w.kind, w.text, gosrc))
 	}
 	for _, v := range goVariants {
 		cc := base(v.kind, miniLox, miniGo)
@@ -1107,6 +1119,33 @@ func init() {
 			}
 			h.WriteString(strings.Join(j.c.Args, " "))
 			c.Distinct(h.String())
+		}
+		{
+			// where the time goes: total seconds by kind prefix and the number of runs that needed more than a second
+			byKind := map[string]float64{}
+			slow := 0
+			for _, j := range jobs {
+				k := strings.SplitN(j.c.Kind, ":", 2)[0]
+				byKind[k] += j.res.Dur.Seconds()
+				if j.res.Dur > time.Second {
+					slow++
+				}
+			}
+			for k, v := range byKind {
+				byKind[k] = float64(int(v*10)) / 10
+			}
+			sorted := append([]*cliJob(nil), jobs...)
+			sort.Slice(sorted, func(a, b int) bool { return sorted[a].res.Dur > sorted[b].res.Dur })
+			var top []string
+			for _, j := range sorted {
+				if len(top) == 12 {
+					break
+				}
+				top = append(top, fmt.Sprintf("%s %.1fs", j.c.Kind, j.res.Dur.Seconds()))
+			}
+			c.Extra["slowest_runs"] = top
+			c.Extra["cli_seconds_by_kind"] = byKind
+			c.Extra["runs_over_1s"] = slow
 		}
 		c.Extra["max_duration_s"] = maxDur.Seconds()
 		c.Extra["timeouts_s"] = []float64{t1.Seconds(), t2.Seconds()}
